@@ -198,9 +198,6 @@ Fixpoint is_prefix (a b : list nat) : bool :=
   | _ :: _, [] => false
   end.
 
-Definition ci_eqb (a b : card_index) : bool :=
-  Nat.eqb (ci_function a) (ci_function b) && list_eqb Nat.eqb (ci_indices a) (ci_indices b).
-
 (* one index addresses the other card or one of its ancestors *)
 Definition related (a b : card_index) : bool :=
   Nat.eqb (ci_function a) (ci_function b) &&
@@ -321,44 +318,6 @@ Definition spec_step (m : rmodule) (o : op) : rmodule * robs :=
       | SpErr e => (m, RoErr e)
       end
   end.
-
-(* ---- known-finding classes: decidable on the input (module before the call, call) ------------- *)
-
-(* A-25: swap_cards(i, i) on an existing card *)
-Definition known_swap_same (m : module) (o : op) : bool :=
-  match o with
-  | OpSwap a b =>
-      ci_eqb a b && match spec_get (to_rmod m) a with SpOk _ => true | SpErr _ => false end
-  | _ => false
-  end.
-
-(* A-26: insert_card whose parent is a Call / CallNative card and whose last index is beyond the
-   end of the argument list *)
-Definition known_call_insert (m : module) (o : op) : bool :=
-  match o with
-  | OpInsert idx _ =>
-      match spec_get (to_rmod m) (mk_index (ci_function idx) (removelast (ci_indices idx))) with
-      | SpOk (RNode (LCall _) kids) | SpOk (RNode (LCallNative _) kids) =>
-          length kids <? last (ci_indices idx) 0
-      | _ => false
-      end
-  | _ => false
-  end.
-
-(* get_card (the immutable lookup) on an index that misses below the top level: it reports the
-   depth one lower than get_card_mut / remove_card / insert_card do for the same index *)
-Definition known_get_depth (m : module) (o : op) : bool :=
-  match o with
-  | OpGet idx =>
-      match spec_get (to_rmod m) idx with
-      | SpErr (CardNotFound (S _)) => true
-      | _ => false
-      end
-  | _ => false
-  end.
-
-Definition known_class (m : module) (o : op) : bool :=
-  known_swap_same m o || known_call_insert m o || known_get_depth m o.
 
 (* ---- decidable equalities (for the checker) --------------------------------------------------- *)
 
